@@ -461,12 +461,17 @@ type CallbackSpec struct {
 }
 
 type FuncContract struct {
+	PkgPath    string
 	Key        string // "pkgpath.Func" | "pkgpath.Type.Method" | with $n suffix for closures
 	Header     string
 	ParamNames []string // from the header, positional ("" = use declared)
 	RecvName   string
 	Pure       bool
 	Assumed    bool
+	Track      []string // callee names whose calls are recorded in the ghost ncalls()/lasterr() (direct calls)
+	NoReturn   bool // the function never returns (os.Exit)
+	Yields     []*Clause // facts about every element an iterator result yields (over k, v)
+	Callsites  []*CallsiteSpec
 	FreshResult bool // the (first) result is a newly allocated object nobody else references
 	Opaque     bool // do not verify the body (e.g. outside subset) but not a dependency: listed as trusted
 	Requires   []*Clause
@@ -500,6 +505,17 @@ type GhostFunc struct {
 	PkgPath string
 }
 
+type GhostVar struct {
+	Name    string
+	Type    string
+	PkgPath string
+}
+
+type CallsiteSpec struct {
+	Callee   string // suffix of the callee key, e.g. "os.Exit"
+	Requires []*Clause
+}
+
 type GhostField struct {
 	Owner   string // type name as written, e.g. "inputBuffer" or "list.Stack"
 	Name    string
@@ -515,13 +531,14 @@ type ContractFile struct {
 	Funcs   []*FuncContract
 	Ghosts  []*GhostFunc
 	Fields  []*GhostField
+	Vars    []*GhostVar
 	Axioms  []*Clause
 }
 
 var clauseKeywords = map[string]bool{
 	"func": true, "pure": true, "assumed": true, "opaque": true, "requires": true, "ensures": true, "modifies": true,
 	"decreases": true, "loop": true, "split": true, "ghost": true, "spec": true, "def": true, "axiom": true, "extern": true,
-	"spec-import": true, "import": true, "package": true, "captures": true, "callback": true, "fresh-result": true, "cbinv": true, "internal": true,
+	"spec-import": true, "import": true, "package": true, "captures": true, "callback": true, "fresh-result": true, "cbinv": true, "internal": true, "noreturn": true, "callsite": true, "yields": true, "track": true,
 }
 
 // parseContractFile reads either a Go file with //@ lines or a raw .gvc file.
@@ -610,6 +627,14 @@ func parseContractFile(path string, pkgPath string) (*ContractFile, error) {
 			cf.SMTImports = append(cf.SMTImports, strings.Trim(rest, `"`))
 		case "ghost", "spec", "extern", "def":
 			// ghost func f(a T, b U) R        | spec func f(a T) R = expr | ghost field T.f Type
+			if strings.HasPrefix(rest, "var ") {
+				parts := strings.SplitN(strings.TrimSpace(rest[4:]), " ", 2)
+				if len(parts) != 2 {
+					return nil, fmt.Errorf("%s:%d: ghost var <name> <type>", path, l.no)
+				}
+				cf.Vars = append(cf.Vars, &GhostVar{Name: parts[0], Type: strings.TrimSpace(parts[1]), PkgPath: cf.PkgPath})
+				continue
+			}
 			if strings.HasPrefix(rest, "field ") {
 				parts := strings.SplitN(strings.TrimSpace(rest[6:]), " ", 2)
 				if len(parts) != 2 {
@@ -639,7 +664,7 @@ func parseContractFile(path string, pkgPath string) (*ContractFile, error) {
 			}
 			cf.Axioms = append(cf.Axioms, c)
 		case "func":
-			cur = &FuncContract{Header: rest, Loops: map[int]*LoopSpec{}, File: path, Line: l.no}
+			cur = &FuncContract{Header: rest, Loops: map[int]*LoopSpec{}, File: path, Line: l.no, PkgPath: cf.PkgPath}
 			key, names, rn, err := parseFuncHeader(rest)
 			if err != nil {
 				return nil, fmt.Errorf("%s:%d: %v", path, l.no, err)
@@ -661,6 +686,37 @@ func parseContractFile(path string, pkgPath string) (*ContractFile, error) {
 				cur.Opaque = true
 			case "fresh-result":
 				cur.FreshResult = true
+			case "track":
+				cur.Track = append(cur.Track, strings.Fields(rest)...)
+			case "noreturn":
+				cur.NoReturn = true
+			case "yields":
+				c, err := mk(rest, l.no)
+				if err != nil {
+					return nil, err
+				}
+				cur.Yields = append(cur.Yields, c)
+			case "callsite":
+				// callsite <callee> requires <expr>
+				f := strings.SplitN(rest, " ", 3)
+				if len(f) < 3 || f[1] != "requires" {
+					return nil, fmt.Errorf("%s:%d: callsite <callee> requires <expr>", path, l.no)
+				}
+				c, err := mk(f[2], l.no)
+				if err != nil {
+					return nil, err
+				}
+				var cs *CallsiteSpec
+				for _, x := range cur.Callsites {
+					if x.Callee == f[0] {
+						cs = x
+					}
+				}
+				if cs == nil {
+					cs = &CallsiteSpec{Callee: f[0]}
+					cur.Callsites = append(cur.Callsites, cs)
+				}
+				cs.Requires = append(cs.Requires, c)
 			case "requires", "ensures", "decreases", "captures":
 				c, err := mk(rest, l.no)
 				if err != nil {
